@@ -32,7 +32,7 @@ META = {
     "note": "partial: the proof covers the handshake logic (what the counters and the fence guarantee). 'No memory is used after "
             "being freed' and 'no data race' outside that logic - the engines' own teardown (shutdownDrain, deferred self-destruction, "
             "eventfd close vs. enqueue) - are sanitizer evidence from the storms, not theorems; 'bounded time' is measured (every call "
-            "<= its own timeout + 700 ms, stop() <= 3 s). A call STARTED after the last owner is gone is outside the contract (theorem "
+            "<= its own timeout + 1.5 s, stop() <= 5 s (sanitizer builds)). A call STARTED after the last owner is gone is outside the contract (theorem "
             "6 shows the model flags it). Trusted: Coq kernel; extraction + OCaml driver; harness/c05_impl.cpp; ASan/UBSan/TSan.",
 }
 
